@@ -19,7 +19,7 @@ from pvmon.oracle import judge, tzdb
 
 PLAN = {
     "quick": {"configs": ["ext1", "ext0"], "nshards": 12, "nshards_ext0": 4, "timeout": 900},
-    "thorough": {"configs": ["ext1", "ext0"], "nshards": 16, "timeout": 3400, "suite": ["ext1"]},
+    "thorough": {"configs": ["ext1", "ext0"], "nshards": 16, "timeout": 6000, "suite": ["ext1"]},
 }
 DECIDING = ["dt.start_of", "dt.end_of", "date.start_of", "date.end_of", "provenance"]
 FLOORS = {"quick": {"dt.start_of": 100000, "dt.end_of": 100000, "date.start_of": 3000, "date.end_of": 3000, "provenance": 30000},
